@@ -33,6 +33,40 @@ type cteDocStats struct {
 	Samples                                                                     []string
 }
 
+// runCTEDocTexts only enumerates the texts (with the model's verdict).
+func runCTEDocTexts(c *Check, maxLen int, onText func(text []byte, verdict string)) int {
+	params := paramsModuleExt("Integers", nil, "LimV == "+defaultLim.TLA())
+	cfgText := fmt.Sprintf("INIT Init\nNEXT Next\nINVARIANT Emit\nINVARIANT Inv\nCHECK_DEADLOCK FALSE\nCONSTANTS\n MaxLen = %d\n Lim <- LimV\n", maxLen)
+	var tokens []string
+	n := 0
+	res := mustTLC(TLCRun{Module: "CTEDoc", Cfg: cfgText, Extra: map[string]string{"VerifParams.tla": params}, Workers: 8, Timeout: 40 * time.Minute,
+		OnLine: func(p string) {
+			if tokens == nil {
+				var t struct {
+					Tokens []string `json:"tokens"`
+				}
+				if err := json.Unmarshal([]byte(p), &t); err != nil || len(t.Tokens) == 0 {
+					machineryFail("CTEDoc: cannot read the token table: %v (%q)", err, p)
+				}
+				tokens = t.Tokens
+				return
+			}
+			var lf cteDocLeaf
+			if err := json.Unmarshal([]byte(p), &lf); err != nil {
+				machineryFail("CTEDoc: %v in %q", err, p)
+			}
+			var sb strings.Builder
+			sb.WriteString("c0\n")
+			for _, i := range lf.H {
+				sb.WriteString(cteTokenText[tokens[i-1]])
+			}
+			n++
+			onText([]byte(sb.String()), lf.V)
+		}})
+	c.AddTLC(res)
+	return n
+}
+
 // runCTEDoc enumerates token sequences with TLC and decodes their text; onAccepted is
 // called for every text the real decoder with rules accepts.
 func runCTEDoc(c *Check, maxLen int, onAccepted func(text []byte)) cteDocStats {
